@@ -59,6 +59,7 @@ class AbstractAst:
         self.in_vars = set()
         self.out_vars = set()
         self.free_vars = set()
+        self.read_vars = set()    # variables that some formula reads as an input signal
 
         self.var_subspec_dict = dict()
         self.var_object_dict = dict()
